@@ -5,17 +5,31 @@ import Dbg.Model.KmerIter
 namespace Drv.C13
 open Kmer KIter Drv.C10
 
+/-- the view named by `a.b.r` (window `[a,b)` of the string, reverse-complemented when `r`) or `a.b.r.x.y` (then its window `[x,y)`) -/
+def sliceSpec (d : DnaStr.T) (fs : List String) : Option DnaStr.Slice :=
+  match fs with
+  | [a, b, r] => (DnaStr.sliceOf d a.toNat! b.toNat!).map fun s => if r == "1" then s.rc else s
+  | [a, b, r, x, y] => ((DnaStr.sliceOf d a.toNat! b.toNat!).map fun s => if r == "1" then s.rc else s).bind fun s => DnaStr.Slice.slice s x.toNat! y.toNat!
+  | _ => none
+
+/-- the bases that view is supposed to hold -/
+def sliceBases (seq : List Nat) (fs : List String) : List Nat :=
+  match fs with
+  | [a, b, r] => let sub := (seq.drop a.toNat!).take (b.toNat! - a.toNat!); if r == "1" then KSpec.rc sub else sub
+  | [a, b, r, x, y] =>
+    let sub := (seq.drop a.toNat!).take (b.toNat! - a.toNat!)
+    let v := if r == "1" then KSpec.rc sub else sub
+    (v.drop x.toNat!).take (y.toNat! - x.toNat!)
+  | _ => []
+
 /-- build the container named by `spec` over the bases `seq`; returns the container view and the bases
     the container is supposed to hold -/
 def mkCont (c : Cfg) (spec : String) (seq : List Nat) : R (Option (Cont c) × List Nat) :=
   match spec.splitOn "." with
   | ["string"] => pure ((DnaStr.fromBytes seq).map (ofDnaString c), seq)
-  | ["slice", a, b, r] => do
-    let a ← nat a; let b ← nat b; let r ← bool r
-    let sub := (seq.drop a).take (b - a)
-    let v := (DnaStr.fromBytes seq).bind fun d =>
-      (DnaStr.sliceOf d a b).map fun s => ofSlice c d (if r then s.rc else s)
-    pure (v, if r then KSpec.rc sub else sub)
+  | "slice" :: fs => do
+    let v := (DnaStr.fromBytes seq).bind fun d => (sliceSpec d fs).map fun s => ofSlice c d s
+    pure (v, sliceBases seq fs)
   | ["lmer", n] => do
     let n ← nat n
     pure ((Lmer.fromSlice n seq).map (ofLmer c), seq)
@@ -79,20 +93,20 @@ def handle (args : List String) (impl : String) : R Ans :=
       -- C12: reverse complement of the container, twice, and the k-mers of the reverse complement
       let rcBases : Option (List Nat) := match cont.splitOn "." with
         | ["string"] => ((DnaStr.fromBytes seq).bind DnaStr.rc).bind DnaStr.toBytes
-        | ["slice", a, b, r] => (DnaStr.fromBytes seq).bind fun d =>
-            (DnaStr.sliceOf d a.toNat! b.toNat!).bind fun s => DnaStr.Slice.bytes d (if r == "1" then s else s.rc)
+        | "slice" :: fs => (DnaStr.fromBytes seq).bind fun d =>
+            (sliceSpec d fs).bind fun s => DnaStr.Slice.bytes d s.rc
         | ["lmer", n] => ((Lmer.fromSlice n.toNat! seq).bind Lmer.rc).bind Lmer.toBytes
         | _ => none
       let rcrc : Option (List Nat) := match cont.splitOn "." with
         | ["string"] => (((DnaStr.fromBytes seq).bind DnaStr.rc).bind DnaStr.rc).bind DnaStr.toBytes
-        | ["slice", a, b, r] => (DnaStr.fromBytes seq).bind fun d =>
-            (DnaStr.sliceOf d a.toNat! b.toNat!).bind fun s => DnaStr.Slice.bytes d (if r == "1" then s.rc else s)
+        | "slice" :: fs => (DnaStr.fromBytes seq).bind fun d =>
+            (sliceSpec d fs).bind fun s => DnaStr.Slice.bytes d s.rc.rc
         | ["lmer", n] => (((Lmer.fromSlice n.toNat! seq).bind Lmer.rc).bind Lmer.rc).bind Lmer.toBytes
         | _ => none
       let kmersRc : Option (List (St c)) := match cont.splitOn "." with
         | ["string"] => ((DnaStr.fromBytes seq).bind DnaStr.rc).bind fun d => iterKmers (ofDnaString c d)
-        | ["slice", a, b, r] => (DnaStr.fromBytes seq).bind fun d =>
-            (DnaStr.sliceOf d a.toNat! b.toNat!).bind fun s => iterKmers (ofSlice c d (if r == "1" then s else s.rc))
+        | "slice" :: fs => (DnaStr.fromBytes seq).bind fun d =>
+            (sliceSpec d fs).bind fun s => iterKmers (ofSlice c d s.rc)
         | ["lmer", n] => ((Lmer.fromSlice n.toNat! seq).bind Lmer.rc).bind fun x => iterKmers (ofLmer c x)
         | _ => none
       -- equality of values: x.rc().rc() == x, and x == x.rc() iff the sequence is its own reverse complement
@@ -103,7 +117,7 @@ def handle (args : List String) (impl : String) : R Ans :=
               | some r => (b3 (decide ((DnaStr.rc r) = some d)), b3 (decide (r = d)))
               | none => (9, 9))
             | none => (9, 9))
-        | ["slice", a, b, r] => (match (DnaStr.fromBytes seq).bind fun d => (DnaStr.sliceOf d a.toNat! b.toNat!).map fun s => (d, if r == "1" then s.rc else s) with
+        | "slice" :: fs => (match (DnaStr.fromBytes seq).bind fun d => (sliceSpec d fs).map fun s => (d, s) with
             | some (d, s) => (b3 ((DnaStr.Slice.eq d s.rc.rc d s).getD false), b3 ((DnaStr.Slice.eq d s d s.rc).getD false))
             | none => (9, 9))
         | ["lmer", n] => (match Lmer.fromSlice n.toNat! seq with
@@ -114,8 +128,8 @@ def handle (args : List String) (impl : String) : R Ans :=
         | _ => (9, 9)
       -- slices: the owned copy of the rc view, and the rc of the owned copy of the view
       let own : Option String := match cont.splitOn "." with
-        | ["slice", a, b, r] => some <|
-            match (DnaStr.fromBytes seq).bind fun d => (DnaStr.sliceOf d a.toNat! b.toNat!).map fun s => (d, if r == "1" then s.rc else s) with
+        | "slice" :: fs => some <|
+            match (DnaStr.fromBytes seq).bind fun d => (sliceSpec d fs).map fun s => (d, s) with
             | some (d, s) =>
               (match (DnaStr.Slice.toOwned d s.rc).bind DnaStr.toBytes, ((DnaStr.Slice.toOwned d s).bind DnaStr.rc).bind DnaStr.toBytes with
                | some x, some y => s!" own={showNats x} ownrc={showNats y}"
